@@ -303,9 +303,9 @@ def run(ctx):
                               "compiler builtins, themselves checked against the naive loops), a 1/4096 strided sample of the 32-bit "
                               "domain plus 10x more random inputs against the extracted model, and coqchk",
         "not_proved": [],
-        "observations": ["number_splitter<32/64-bit>::safe_cut(count >= width) on a fresh splitter calls cut(width): undefined "
-                         "behaviour (theorem number_splitter_safe_cut_full_width_is_UB); is_correct() excludes it, safe_cut does not",
-                         "ceil2(n) for n > 2^63 shifts by 64: undefined behaviour (theorem ceil2_above_2_63_is_UB)"],
+        "observations": ["ceil2(n) for n > 2^63 shifts by 64: undefined behaviour (theorem ceil2_above_2_63_is_UB)",
+                         "number_splitter::safe_cut(count >= width) on a fresh splitter used to call cut(width) (undefined shift); "
+                         "repaired by /repo commit 096bd5f, now theorem number_splitter_<T>_safe_cut_whole_number"],
     })
     ctx.log("sweep: %d model-vs-C++ evaluations, %d reference evaluations, %d classes, UB-with-value %d"
             % (evaluations, sum(ref_counts.values()), len(classes), sum(ub_with_value.values())))
